@@ -72,6 +72,12 @@ def c14 : List String := Id.run do
       out := out ++ [s!"reference to alloc / an external crate: {repr r}"]
     else if !(noStdBuilds.all (fun b => !compiledIn b r)) then
       out := out ++ [s!"std item compiled into a no-std build: {repr r}"]
+    else if !(stdBuilds.all (fun b => !compiledIn b r || allowedStd.contains r.path)) then
+      out := out ++ [s!"the shipped std build names a std item other than CPU feature detection: {repr r}"]
+  if !(crateAttrs.contains "cfg_attr(not(feature=\"std\"),no_std)") then
+    out := out ++ ["the crate is not `no_std` when the `std` feature is off"]
+  if cargoDependencies != [] then
+    out := out ++ [s!"the crate has dependencies: {cargoDependencies}"]
   return out
 
 def main (args : List String) : IO UInt32 := do
